@@ -77,6 +77,8 @@ Definition macro_cloned (k : nat) (evals : list nat) : list nat :=
 
 (** every way to a [Batch] from safe code: [Batch::new], or a macro arm — the cloning one above, the
     transposing one (rectangular by the macro pattern itself: one expression per tuple and column) and the
-    two without any column *)
+    two without any column; and the [unsafe] blocks of the macro hold none of the caller's expressions, so that
+    a front looking safe IS safe (finding F17) *)
 Definition batch_safe_ctors_known : bool :=
-  batch_safe_ctor_unique && fact_entities_macro_unchecked_arms_known.
+  batch_safe_ctor_unique && fact_entities_macro_unchecked_arms_known
+  && fact_entities_macro_unsafe_holds_no_metavariable.
